@@ -73,6 +73,10 @@ Theorem c02_cell_value : forall m e, (0 < m)%Z -> let '(n, q) := frac m e in let
 Proof. exact (sci_parts_spec 7). Qed.
 Print Assumptions c02_cell_value.
 
+(* the header's point count is printed with "%10d": its text reads back as that number *)
+Theorem c02_ngrid_text : forall n t, fmt_int F_10d n = Some t -> read_number t = Some (mkp (n <? 0)%Z (Z.abs n) 0 0).
+Proof. exact (fmt_int_reads F_10d). Qed.
+
 Example c02_example :
   let pots := [{| p_a := 0; p_b := 1; p_hasd := false |}] in
   (8 mod 4 = 0)%Z /\ option_map (fun f => length (trace f)) (dlpoly_file pots (2 # 1) 8) = Some (8 + 16)%nat /\
